@@ -23,8 +23,10 @@ import os
 import framework as fw
 import smt
 
-SHAPES_QUICK = [(1, 1, 0), (1, 0, 0), (6, 2, 0), (40, 3, 0), (1, 1, 1)]
-SHAPES_THOROUGH = SHAPES_QUICK + [(120, 5, 1), (500, 4, 0), (1030, 3, 0), (2100, 2, 0)]
+# (addition rows, public inputs, custom gates); 6 + adds rows: 2 and 10 give exactly 8 and 16 rows
+SHAPES_QUICK = [(1, 1, 0), (1, 0, 0), (2, 1, 0), (6, 2, 0), (10, 2, 0), (40, 3, 0), (1, 1, 1)]
+SHAPES_THOROUGH = SHAPES_QUICK + [(a, min(a, 4), 0) for a in range(0, 60) if a not in (1, 2, 6, 10, 40)] + \
+    [(58, 5, 0), (120, 5, 1), (122, 0, 0), (250, 3, 0), (500, 4, 0), (1018, 3, 0), (1030, 3, 0), (2100, 2, 0)]
 
 FLAGS = ["pp_raw_roundtrip_identical", "pp_checked_roundtrip_identical", "arbitrary_proof_reencodes_to_itself",
          "prover_roundtrip_identical", "verifier_roundtrip_identical", "decoded_prover_same_proof",
@@ -32,7 +34,71 @@ FLAGS = ["pp_raw_roundtrip_identical", "pp_checked_roundtrip_identical", "arbitr
          "arbitrary_proof_same_verdict", "arbitrary_proof_same_condition"]
 
 
+def proof_canonicity(run):
+    """Every path of Proof::from_bytes on 11 arbitrary group elements and 15 arbitrary 256-bit
+    integers v_i + kappa_i*r: on each ACCEPTING path the solver shows every kappa_i = 0 (only
+    canonical scalar encodings are accepted) and the re-encoding carries the same values."""
+    from checks import paths as pth
+    from checks.common import real_at
+    sb = fw.run_driver(fw.SYM_BIN, ["proof_canon"], run.seed, extra_env={"VERIF_MAX_PATHS": "256"})
+    ctx = smt.Ctx()
+    nodes = ctx.from_nodes(sb["nodes"])
+    dec = sb["outputs"]["decode"]
+    kappas = [nodes[k] for k in sb["outputs"]["kappas"]]
+    if not dec["complete"]:
+        run.inconclusive.append("proof_canon: path enumeration incomplete")
+    accepted = 0
+    for i, pj in enumerate(dec["paths"]):
+        if pj["panic"] is not None:
+            path = _cex("proof_canon_panic", {"property": "C16", "what": "Proof::from_bytes panicked", "path": pj,
+                                              "replayed": False})
+            run.inconclusive.append(f"proof_canon/path{i}: decoder panicked on the symbolic input ({pj['panic']}); see {path}")
+            continue
+        if not pj["result"]["accepted"]:
+            continue
+        accepted += 1
+        P = pth.Path(pj, nodes)
+        roots = []
+        conds = P.cond_smt(ctx, roots)
+        lines = smt.smt_defs(roots + kappas)
+        goal = "(or " + " ".join(f"(not (= (mod {smt.ref(k)} {smt.R}) 0))" for k in kappas) + ")"
+
+        def rp(model, pj=pj):
+            env = {}
+            for j in range(15):
+                v = model.get(smt.vname(f"pe{j}_kappa"), 0) % smt.R
+                env[f"pe{j}_kappa"] = "%064x" % (1 if v else 0)
+            if not any(int(v, 16) for v in env.values()):
+                env["pe0_kappa"] = "%064x" % 1
+            rb = real_at(["proof_canon"], env, run.seed)
+            r = rb["outputs"]["decode"]["paths"][0]["result"]
+            bad = bool(r and r.get("accepted") and not r.get("reencoded_bytes_identical"))
+            return bad, {"driver": ["proof_canon"], "env": env, "real": r}
+        run.obligation(f"proof_canon/path{i}/accepted-implies-canonical", lines, conds + [goal], "unsat",
+                       "decoder-canonicity", replay=rp)
+        if not pj["result"]["reencoded_values_match"]:
+            ok, det = rp({})
+            path = _cex("proof_canon_values", {"property": "C16", "what": "re-encoding carries different values",
+                                               "replay_detail": det, "replayed": ok})
+            (run.violations if ok else run.inconclusive).append(
+                (f"proof_canon/path{i}/values", path) if ok else f"proof_canon/path{i}: re-encoded values differ")
+    if accepted == 0:
+        run.inconclusive.append("proof_canon: no accepting path (vacuous)")
+    run.add_functions(sb["meta"]["functions"])
+    run.bounds.append("proof canonicity: ALL 1008-byte strings made of 11 arbitrary group-element encodings and 15 "
+                      "arbitrary 256-bit integers v + kappa*r (all paths of the decoder)")
+
+
+def _cex(tag, info):
+    d = os.path.join(fw.OUT, "cex")
+    os.makedirs(d, exist_ok=True)
+    path = os.path.join(d, f"C16_{tag}.json")
+    json.dump(info, open(path, "w"), indent=1)
+    return path
+
+
 def run(run):
+    proof_canonicity(run)
     shapes = SHAPES_QUICK if run.tier == "quick" else SHAPES_THOROUGH
     table = []
     for shape in shapes:
